@@ -101,7 +101,7 @@ class Driver:
         data = "\n".join(json.dumps({"op": op, "a": a}, ensure_ascii=False) for op, a in reqs) + "\n"
         r = subprocess.run(["lake", "env", "lean", "--run", str(self.path)], cwd=LEAN, input=data.encode("utf-8"),
                            stdout=subprocess.PIPE, stderr=subprocess.PIPE, timeout=timeout)
-        lines = r.stdout.decode("utf-8", "replace").splitlines()
+        lines = [ln for ln in r.stdout.decode("utf-8", "replace").split("\n") if ln.strip()]  # not splitlines(): U+2028 etc.
         if r.returncode != 0 or len(lines) != len(reqs):
             raise InfraError(f"driver {self.path.name}: rc={r.returncode} answers={len(lines)}/{len(reqs)} "
                              f"stderr={r.stderr.decode('utf-8', 'replace')[-2000:]} out={lines[-3:] if lines else ''}")
